@@ -36,6 +36,9 @@ class PyTimer:
     def reset(self, c: int):
         self.t.reset(cycle_base=c)
 
+    def ack(self, m: int):
+        pass          # the Python scheduler holds no status register (the emulator sets ISR from the returned sources)
+
     def restore(self, en, pm, ps, nm, ns, c):
         # mirrors PCE500Emulator.load_snapshot's timer block
         self.t.mti_period = int(pm)
@@ -65,6 +68,9 @@ class RsTimer:
     def reset(self, c: int):
         self.last = self.vh.call("timer.reset", cycle=c)
 
+    def ack(self, m: int):
+        self.last = self.vh.call("timer.ack", mask=m)
+
     def restore(self, en, pm, ps, nm, ns, c):
         self.last = self.vh.call("timer.restore", enabled=en, pm=pm, ps=ps, nm=nm, ns=ns, cycle=c)
 
@@ -93,6 +99,9 @@ def drive_one(impl: str, beh: Dict[str, Any], vh: Vh, tid: int) -> List[Dict[str
             f = t.tick(o + cur)
             nm, ns, isr = t.proj()
             ev.append({"tid": tid, "ev": "Tick", "c": cur, "fired": [int(f[0]), int(f[1])], "nm": rel(nm), "ns": rel(ns), "isr": isr})
+        elif a["ev"] == "Ack":
+            t.ack(a["m"])
+            ev.append({"tid": tid, "ev": "Ack", "m": a["m"]})
         elif a["ev"] == "Reset":
             t.reset(o + cur)
             nm, ns, isr = t.proj()
@@ -207,6 +216,8 @@ def random_behaviours(seed: int, n: int, length: int) -> List[Dict[str, Any]]:
             r = rnd.random()
             if r < 0.05:
                 acts.append({"ev": "Reset"})
+            elif r < 0.22 and acts and acts[-1]["ev"] == "Tick":
+                acts.append({"ev": "Ack", "m": rnd.choice([1, 2, 3, 3])})
             elif r < 0.10:
                 p1 = rnd.choice(big_periods + [0])
                 p2 = rnd.choice(big_periods + [0])
